@@ -369,6 +369,9 @@ Qed.
 Lemma doc_at_nf : forall f, pos_ok f pos_not_found /\ doc_at f pos_not_found = None.
 Proof. intros f. split; [left; reflexivity|]. unfold doc_at. rewrite N.eqb_refl. reflexivity. Qed.
 
+Lemma cf_fault_compile : forall f, cf_fault (compile f) = false.
+Proof. intros f; unfold compile; destruct (f_sealed f); reflexivity. Qed.
+
 Lemma cf_phys_compile : forall f, cf_phys (compile f) = phys_of f.
 Proof. intros f. unfold compile. destruct (f_sealed f); reflexivity. Qed.
 
@@ -390,7 +393,7 @@ Lemma active_fetch_ok : forall g f ids,
   f_sealed f = false -> docs_wf (f_docs f) -> layout_wf f -> Forall id_u64 ids ->
   frac_fetch g (compile f) ids = Ok (map (lookup f) ids).
 Proof.
-  intros g f ids Hs Hw Hl Hu. unfold frac_fetch, frac_fetch_gen. rewrite cf_compile, Hs, cf_phys_compile.
+  intros g f ids Hs Hw Hl Hu. unfold frac_fetch, frac_fetch_gen. rewrite cf_fault_compile, cf_compile, Hs, cf_phys_compile.
   assert (Ek : N.of_nat (length (p_boffs (phys_of f))) = N.of_nat (length (blocks_of f))).
   { unfold phys_of. cbn [p_boffs]. rewrite block_offsets_length. reflexivity. }
   rewrite Ek. replace (p_apos (phys_of f)) with (apos_of f) by reflexivity.
@@ -459,7 +462,7 @@ Lemma sealed_fetch_ok : forall g f ids,
 Proof.
   intros g f ids Hg Hs Hw Hl.
   destruct (sealed_find_lids_ok g f ids Hg Hs Hw) as [lids [Hfl Hdl]]. unfold find_lids in Hfl.
-  unfold frac_fetch, frac_fetch_gen. rewrite cf_compile, Hs, Hfl, cf_phys_compile.
+  unfold frac_fetch, frac_fetch_gen. rewrite cf_fault_compile, cf_compile, Hs, Hfl, cf_phys_compile.
   assert (Ept : p_ptab (phys_of f) = build_ptab (ptab_of f) 0 (PositiveMap.empty N)).
   { unfold phys_of. cbn [p_ptab]. rewrite Hs. reflexivity. }
   assert (En : cf_n (compile f) = N.of_nat (length (ptab_of f))).
